@@ -51,6 +51,10 @@ func (x *fnExec) execInstr(st *State, in ssa.Instruction) bool {
 			fail("FieldAddr on unnamed struct %v", i.X.Type())
 		}
 		f := s.Field(i.Field)
+		// a nil dereference panics (non-zero exit); execution continues only with a non-nil base
+		if !strings.HasPrefix(base.S, "(emb_") {
+			st.assume(not(eq(base.S, "0")))
+		}
 		if v.isEmbeddedStructField(f.Type()) {
 			st.vals[i] = mkTerm("("+v.embFunc(named, f)+" "+base.S+")", sInt, i.Type())
 		} else {
@@ -184,7 +188,7 @@ func (x *fnExec) execInstr(st *State, in ssa.Instruction) bool {
 		r := x.newRef(st, "chan")
 		x.chanHeapVars(ct.Elem())
 		sz := x.val(st, i.Size)
-		for _, nm := range []string{"CH_sentn", "CH_recvn"} {
+		for _, nm := range []string{"CH_sentn", "CH_recvn", "CH_recva"} {
 			cur := st.heapGet(v, nm, arrSort(sInt, sInt))
 			st.heapSet(v, nm, arrSort(sInt, sInt), store(cur, r, "0"))
 		}
@@ -220,6 +224,7 @@ func (x *fnExec) execInstr(st *State, in ssa.Instruction) bool {
 		val := x.val(st, i.Value)
 		mt := i.Map.Type().Underlying().(*types.Map)
 		x.safety(st, in, "nilmap", "(not (= "+m.S+" 0))")
+		st.assume(not(eq(m.S, "0")))
 		x.mapStore(st, m.S, mt, k.S, val.S)
 	case *ssa.Lookup:
 		xv := x.val(st, i.X)
@@ -258,6 +263,12 @@ func (x *fnExec) execInstr(st *State, in ssa.Instruction) bool {
 	case *ssa.Send:
 		ch := x.val(st, i.Chan)
 		val := x.val(st, i.X)
+		for _, ac := range x.c.AtSend {
+			c := x.ctx(st)
+			c.vars["$ch"] = ch
+			g := x.evalClause(st, c, ac)
+			x.emit(st, fmt.Sprintf("atsend.%s#%d", ac.Label, x.siteOrd[in]), "atsend", ac.Label, ac.Props, g, "before send: "+ac.Src)
+		}
 		x.chanSend(st, in, ch, val, i.Chan.Type())
 	case *ssa.Select:
 		return x.execSelect(st, i)
@@ -599,6 +610,8 @@ func (x *fnExec) chanSend(st *State, in ssa.Instruction, ch, val Term, cht types
 	ct := cht.Underlying().(*types.Chan)
 	es := v.decls.sortOf(ct.Elem())
 	names := x.chanHeapVars(ct.Elem())
+	// a send on a nil channel blocks forever: execution continues only with a non-nil channel
+	st.assume(not(eq(ch.S, "0")))
 	sentn := st.heapGet(v, "CH_sentn", arrSort(sInt, sInt))
 	closed := st.heapGet(v, "CH_closed", arrSort(sInt, sBool))
 	x.safety(st, in, "send-on-closed", not(sel(closed, ch.S)))
@@ -621,6 +634,7 @@ func (x *fnExec) chanRecv(st *State, ch Term, cht types.Type) (Term, Term) {
 	v.decls.add("fun:CH_total", "(declare-fun CH_total (Int) Int)")
 	fn := "CH_in_" + mangleSort(es)
 	v.decls.add("fun:"+fn, "(declare-fun "+fn+" (Int Int) "+es+")")
+	st.assume(not(eq(ch.S, "0")))
 	recvn := st.heapGet(v, "CH_recvn", arrSort(sInt, sInt))
 	rc := sel(recvn, ch.S)
 	okS := st.fresh(v, "rok", sBool)
@@ -629,6 +643,8 @@ func (x *fnExec) chanRecv(st *State, ch Term, cht types.Type) (Term, Term) {
 	st.assume(eq(val.S, "(ite "+okS+" ("+fn+" "+ch.S+" "+rc+") "+zeroOf(es)+")"))
 	x.typeFacts(st, val, true)
 	st.heapSet(v, "CH_recvn", arrSort(sInt, sInt), store(recvn, ch.S, "(ite "+okS+" (+ "+rc+" 1) "+rc+")"))
+	reca := st.heapGet(v, "CH_recva", arrSort(sInt, sInt))
+	st.heapSet(v, "CH_recva", arrSort(sInt, sInt), store(reca, ch.S, "(+ "+sel(reca, ch.S)+" 1)"))
 	return val, mkTerm(okS, sBool, types.Typ[types.Bool])
 }
 
@@ -741,35 +757,64 @@ func (x *fnExec) execReturn(st *State, r *ssa.Return) {
 	x.checkFrame(st, ord)
 }
 
-// checkFrame: every heap variable changed on this path must be covered by the modifies clause.
-func (x *fnExec) checkFrame(st *State, ord int) {
-	v := x.v
-	allowedWhole := map[string]bool{}
-	allowedLocs := map[string][]string{} // heap var -> refs allowed
-	all := false
+type frameSpec struct {
+	all          bool
+	allowedWhole map[string]bool
+	allowedLocs  map[string][]string
+}
+
+func (x *fnExec) frameSpecOf(st *State) *frameSpec {
+	fs := &frameSpec{allowedWhole: map[string]bool{}, allowedLocs: map[string][]string{}}
 	c := x.ctx(st)
 	cOld := *c
 	cOld.inOld = true
 	for _, m := range x.c.Modifies {
 		m = strings.TrimSpace(m)
 		if m == "*" {
-			all = true
+			fs.all = true
 			continue
 		}
 		single := x.modSingle(m, x.c, &cOld)
 		names, a := x.modTargetHeaps(m, x.c)
 		if a {
-			all = true
+			fs.all = true
 		}
 		for _, n := range names {
 			if single == "" {
-				allowedWhole[n] = true
+				fs.allowedWhole[n] = true
 			} else {
-				allowedLocs[n] = append(allowedLocs[n], single)
+				fs.allowedLocs[n] = append(fs.allowedLocs[n], single)
 			}
 		}
 	}
-	if all {
+	return fs
+}
+
+// frameGoal: the formula stating that heap variable name (current symbol cur) differs from its entry value only where allowed.
+func (x *fnExec) frameGoal(fs *frameSpec, name, cur string) (string, bool) {
+	v := x.v
+	if fs.all || fs.allowedWhole[name] || name == "$alloc" || strings.HasPrefix(name, "CELL_") || strings.HasPrefix(name, "ARR_") {
+		return "", false
+	}
+	hs := v.heapSorts[name]
+	init := v.initialHeapSym(name, hs)
+	if cur == init {
+		return "", false
+	}
+	if strings.HasPrefix(hs, "(Array Int ") && !strings.HasPrefix(name, "GH_") && !strings.HasPrefix(name, "G_") {
+		conds := []string{"(> r!f 0)", "(< r!f " + x.entryAlloc + ")"}
+		for _, ref := range fs.allowedLocs[name] {
+			conds = append(conds, not(eq("r!f", ref)))
+		}
+		return "(forall ((r!f Int)) (=> " + and(conds...) + " " + eq(sel(cur, "r!f"), sel(init, "r!f")) + "))", true
+	}
+	return eq(cur, init), true
+}
+
+// checkFrame: every heap variable changed on this path must be covered by the modifies clause.
+func (x *fnExec) checkFrame(st *State, ord int) {
+	fs := x.frameSpecOf(st)
+	if fs.all {
 		return
 	}
 	if st.epoch != 0 {
@@ -777,32 +822,14 @@ func (x *fnExec) checkFrame(st *State, ord int) {
 		return
 	}
 	var changed []string
-	for name, sym := range st.heap {
-		if name == "$alloc" || strings.HasPrefix(name, "CELL_") || strings.HasPrefix(name, "ARR_") {
-			continue
-		}
-		if sym == v.initialHeapSym(name, v.heapSorts[name]) {
-			continue
-		}
-		if allowedWhole[name] {
-			continue
-		}
+	for name := range st.heap {
 		changed = append(changed, name)
 	}
 	sortStrings(changed)
 	for _, name := range changed {
-		hs := v.heapSorts[name]
-		init := v.initialHeapSym(name, hs)
-		cur := st.heap[name]
-		var goal string
-		if strings.HasPrefix(hs, "(Array Int ") && !strings.HasPrefix(name, "GH_") && !strings.HasPrefix(name, "G_") {
-			conds := []string{"(> r!f 0)", "(< r!f " + x.entryAlloc + ")"}
-			for _, ref := range allowedLocs[name] {
-				conds = append(conds, not(eq("r!f", ref)))
-			}
-			goal = "(forall ((r!f Int)) (=> " + and(conds...) + " " + eq(sel(cur, "r!f"), sel(init, "r!f")) + "))"
-		} else {
-			goal = eq(cur, init)
+		goal, needed := x.frameGoal(fs, name, st.heap[name])
+		if !needed {
+			continue
 		}
 		x.emit(st, fmt.Sprintf("frame.%s#%d", name, ord), "frame", name, nil, goal, "not in modifies: "+name)
 	}
